@@ -227,7 +227,8 @@ def handle (line : String) : String :=
   | ["liftover", src, ivs] =>
     (match srcOf src with | some s => liftoverReply s (ivs.splitOn ",") | none => "badreq")
   | ["ops", src, ops] =>
-    (match srcOf src, (ops.splitOn ",").mapM opOf with
+    -- `reopen` (into_inner + Reader::new) is the identity on the model's reader state: the cursor is the stream's
+    (match srcOf src, ((ops.splitOn ",").filter (· != "reopen")).mapM opOf with
      | some s, some ops => opsReply s ops
      | _, _ => "badreq")
   | "spec" :: rest => Judges.handle rest
